@@ -389,6 +389,7 @@ def general(repo, rep, alg, table, quad):
     # classify accumulators: increment == Fi(x)*Fj(x) or y*Fi(x)
     xs = [v for k, v in loop[4] if k == "x"]
     acc = {}
+    skipped = []
     for k, bt in loop[4]:
         lv = ("lv", loop[1], k)
         if lv not in set(T.walk(bt)):
@@ -408,17 +409,31 @@ def general(repo, rep, alg, table, quad):
             if inc == T.mul(T.sym("Y"), FX[i]):
                 r = ("y", i)
         if r is None:
+            if inits.get(k, ("?",))[0] in ("dict", "list", "tuple"):
+                # a container threaded through the loop (memo table, list of sums) is not one of the nine sums: left to the rules on the scalars
+                skipped.append(k)
+                continue
+            if any(x[0] == "phi" and any(y[0] in ("lv", "lt") for y in T.walk(x[1])) for x in T.walk(inc)):
+                # a scalar sum whose term depends on state carried from earlier points (seen-before tables, counters): some points contribute
+                # to this sum differently from the others - the sums are no longer those of the data
+                rep.violation("R-E4-ID", site, "acc-conditional:" + k, "accumulator %s takes its term under a condition on state carried over from earlier points (%s): "
+                              "points contribute to this sum and to the others differently, the normal equations are not those of the data"
+                              % (k, T.show(inc)[:80]), obligation=True)
+                return
             if any(x[0] in ("lv", "lt", "loopout") or (x[0] == "call" and isinstance(x[1], str) and x[1].startswith(".")) for x in T.walk(inc)):
-                # accumulated through a container / table-driven loop the evaluator does not resolve to one increment per sum: not read
                 rep.inconcl("R-E4-ID", site, "accumulator %s: increment not reduced to a product of basis values (%s)" % (k, T.show(inc)[:60]))
-            else:
-                rep.violation("R-E4-ID", site, "acc-form:" + k, "accumulator %s is not a sum of f_i(x)*f_j(x) or y*f_i(x): %s" % (k, T.show(inc)[:100]), obligation=True)
+                return
+            rep.violation("R-E4-ID", site, "acc-form:" + k, "accumulator %s is not a sum of f_i(x)*f_j(x) or y*f_i(x): %s" % (k, T.show(inc)[:100]), obligation=True)
             return
         if inits.get(k) != T.ZERO:
             rep.violation("R-E4-ID", site, "acc-init:" + k, "accumulator %s does not start from 0" % k, obligation=True)
             return
         acc[k] = r
     need = {(0, 0), (0, 1), (0, 2), (1, 1), (1, 2), (2, 2), ("y", 0), ("y", 1), ("y", 2)}
+    if set(acc.values()) != need and skipped:
+        # the sums are kept in containers threaded through the loop (%s): not read as nine scalar sums - nothing to compare
+        rep.inconcl("R-E4-ID", site, "the basis sums are accumulated in containers (%s), not as scalar sums: moments not read" % ", ".join(skipped))
+        return
     if set(acc.values()) != need:
         rep.violation("R-E4-ID", site, "moments", "the nine basis sums are not all accumulated: %s" % sorted(map(str, acc.values())), obligation=True)
         return
